@@ -43,6 +43,7 @@ type engine struct {
 
 var engines = []engine{
 	{Name: "store-sim", Pkg: "./harness/store", Kind: "real storage/writer/reader/query code over simulated disk; histories, restarts, kills, I/O errors", Props: []string{"C01", "C03", "C04", "C05", "C12", "C26"}},
+	{Name: "query-sim", Pkg: "./harness/query", Kind: "real query engine over a database written by the real writer; worker count, memory mode, goroutine schedule and reader/writer interleaving decided by the simulator", Props: []string{"C06", "C08", "C11", "C30", "C31"}},
 	{Name: "merge-sim", Pkg: "./harness/merge", Kind: "real MergeDatabases over a read-only source disk and a destination disk; generated database pairs; kills at every mutating operation", Props: []string{"C24", "C25"}},
 }
 
@@ -66,6 +67,7 @@ var propCfgs = map[string]propCfg{
 	"C24": {Level: "exploration", Quick: tierCfg{Runs: 4000, BudgetS: 35, MinS: 30}, Thorough: tierCfg{Runs: 400000, BudgetS: 600, MinS: 120}},
 	"C25": {Level: "fault_enumeration", Quick: tierCfg{Runs: 4000, BudgetS: 35, MinS: 30}, Thorough: tierCfg{Runs: 400000, BudgetS: 600, MinS: 120}},
 	"C26": {Level: "exploration", Quick: tierCfg{Runs: 4000, BudgetS: 35, MinS: 30}, Thorough: tierCfg{Runs: 400000, BudgetS: 600, MinS: 120}},
+	"C08": {Level: "exploration", Quick: tierCfg{Runs: 4000, BudgetS: 35, MinS: 30}, Thorough: tierCfg{Runs: 400000, BudgetS: 600, MinS: 120}},
 	"C05": {Level: "fault_enumeration", Quick: tierCfg{Runs: 96, BudgetS: 35, MinS: 30}, Thorough: tierCfg{Runs: 4000, BudgetS: 600, MinS: 120}},
 }
 
@@ -254,7 +256,13 @@ func runWorkers(bin, scratch, id, tier string, seed int64, workers int, tc tierC
 			b, rerr := os.ReadFile(out)
 			r := &h.WorkerResult{}
 			if rerr != nil || json.Unmarshal(b, r) != nil {
-				r.HarnessErr = fmt.Sprintf("worker %d produced no result (err=%v)\n%s", w, err, tail(buf.String(), 4000))
+				if cv := crashViolation(id, buf.String(), out+".current", seed); cv != nil {
+					// the process died from a panic inside goProbe code (e.g. in a worker goroutine)
+					r = &h.WorkerResult{Property: id, Evaluations: cv.Count, Violations: []h.VRec{*cv}}
+					r.Violations[0].Count = 1
+				} else {
+					r.HarnessErr = fmt.Sprintf("worker %d produced no result (err=%v)\n%s", w, err, tail(buf.String(), 4000))
+				}
 			} else if err != nil && r.HarnessErr == "" {
 				r.HarnessErr = fmt.Sprintf("worker %d exited with %v\n%s", w, err, tail(buf.String(), 4000))
 			}
@@ -263,6 +271,45 @@ func runWorkers(bin, scratch, id, tier string, seed int64, workers int, tc tierC
 	}
 	wg.Wait()
 	return res
+}
+
+// crashViolation turns the death of a worker process by a panic raised in goProbe code into a
+// violation record for the run that was executing (known from the marker file). A panic whose
+// first non-runtime frame is harness code is a machinery failure and returns nil.
+func crashViolation(id, output, marker string, seed int64) *h.VRec {
+	i := strings.Index(output, "panic: ")
+	if i < 0 {
+		i = strings.Index(output, "fatal error: ")
+	}
+	if i < 0 {
+		return nil
+	}
+	lines := strings.Split(output[i:], "\n")
+	fn := ""
+	for _, l := range lines[1:] {
+		if l == "" || strings.HasPrefix(l, "\t") || strings.HasPrefix(l, "goroutine ") || strings.HasPrefix(l, "runtime.") || strings.HasPrefix(l, "panic(") || strings.HasPrefix(l, "[signal") {
+			continue
+		}
+		fn = l
+		break
+	}
+	if j := strings.LastIndex(fn, "("); j > 0 {
+		fn = fn[:j]
+	}
+	if !strings.HasPrefix(fn, "github.com/els0r/goProbe") {
+		return nil
+	}
+	var idx, done int
+	var rs uint64
+	if b, err := os.ReadFile(marker); err == nil {
+		fmt.Sscanf(string(b), "%d %d %d", &idx, &rs, &done)
+	} else {
+		return nil
+	}
+	if len(lines) > 40 {
+		lines = lines[:40]
+	}
+	return &h.VRec{Property: id, Clause: "process-crash", Signature: "panic in " + fn, Detail: strings.Join(lines, "\n"), Seed: seed, RunIndex: idx, RunSeed: rs, Count: done}
 }
 
 func tail(s string, n int) string {
@@ -281,6 +328,16 @@ func runReplay(bin, id, file, tier, knownPath string) int {
 	err := cmd.Run()
 	out := buf.String()
 	fmt.Print(out)
+	if err != nil && !strings.Contains(out, "REPLAY property=") && !strings.Contains(out, "HARNESS ERROR") {
+		os.WriteFile(abs+".current", []byte("0 1 0"), 0o644)
+		cv := crashViolation(id, out, abs+".current", 0)
+		os.Remove(abs + ".current")
+		if cv != nil {
+			fmt.Printf("REPLAY property=%s clause=%s signature=%q (process crashed)\n", id, cv.Clause, cv.Signature)
+			fmt.Printf("VIOLATION property=%s replay=%s\n", id, abs)
+			return 1
+		}
+	}
 	if strings.Contains(out, "HARNESS ERROR") || (err != nil && !strings.Contains(out, "REPLAY property=")) {
 		return 2
 	}
@@ -302,6 +359,12 @@ func replayClass(bin, id, file, tier, knownPath string) (string, string) {
 	defer os.Remove(out)
 	b, err := os.ReadFile(out)
 	if err != nil {
+		os.WriteFile(file+".current", []byte("0 1 0"), 0o644)
+		cv := crashViolation(id, buf.String(), file+".current", 0)
+		os.Remove(file + ".current")
+		if cv != nil {
+			return cv.Property + "/" + cv.Clause + "/" + cv.Signature, ""
+		}
 		return "", "no replay result: " + tail(buf.String(), 2000)
 	}
 	var r h.WorkerResult
